@@ -30,7 +30,7 @@ ExpectedVar(v, e) ==
                        IN VarAtIdx(v, SubSeq(ridx, 1, p - 1) \o <<OneStep(e)>> \o SubSeq(ridx, p, Len(ridx)))]]
 
 \* the period the saved file actually uses (xarray writes a finer one than asked for when an integer axis needs it)
-Periods == {"seconds", "minutes", "hours", "days"}
+Periods == {"seconds", "minutes", "hours", "days", "milliseconds", "microseconds"}
 FilePeriod(e) == IF \E p \in Periods : HasPrefix(e.obs.ok.units, PeriodStr(p) \o Since)
                  THEN CHOOSE p \in Periods : HasPrefix(e.obs.ok.units, PeriodStr(p) \o Since) ELSE e.period
 
